@@ -158,6 +158,29 @@ def run(ctx):
                    '%s can return after filling the result buffer without a terminator: the reused scratch buffer still '
                    'holds text of an earlier, longer exec, which then follows the value in the record' % dn,
                    how='last write to the result buffer on every return path is a terminating one')
+        # the only limit on these two values is the size of the result buffer (the data-source limit): a precision in
+        # the conversion that prints the path / an argument is a second, fixed limit
+        from engine import fmt as _fmt
+        for dn in ('snoopy_datasource_cmdline', 'snoopy_datasource_filename'):
+            df = prog.func(dn)
+            if df is None:
+                continue
+            bad = []
+            nconv = 0
+            for c in df.calls():
+                if c.get('callee') in _fmt.PRINTF_FAMILY:
+                    for a, d, role in (_fmt.variadic_bindings(c) or []):
+                        if role == 'value' and d['conv'] == 's':
+                            nconv += 1
+                            if d.get('prec'):
+                                bad.append(c)
+                        if role in ('prec', 'precision'):
+                            bad.append(c)
+            chk.ob('S5', 'no-second-length-limit[%s]' % dn, not bad, (bad[0] if bad else df.body).where(), dn,
+                   '%s prints its value with a precision (%s): besides datasource_message_max_length a second, fixed limit cuts '
+                   'the value (a path of 4096 bytes or more is logged short although the configured limit allows it)' % (
+                       dn, render(bad[0])[:60] if bad else ''),
+                   how='%d %%s conversions, none with a precision' % nconv, nontrivial=False)
         # ---- S4 ------------------------------------------------------------------------
         CM = prog.func('snoopy_datasource_cmdline')
         if CM is not None:
